@@ -291,7 +291,8 @@ func samePayload(a, b *bsCall) bool {
 }
 
 var malformations = []string{"nil-store", "nil-region", "zero-store-id", "zero-region-id", "zero-peer-id", "start-key", "end-key",
-	"both-keys", "no-peers", "two-peers", "three-peers-other-stores", "peer-on-another-store", "foreign-cluster-id", "nil-header"}
+	"both-keys", "no-peers", "two-peers", "three-peers-other-stores", "peer-on-another-store", "foreign-cluster-id", "nil-header",
+	"header-minus-one", "header-high-bits-only", "header-low-bits-only", "header-zero"}
 
 // malform turns a well-formed request into a malformed one. The payload stays distinct and
 // recognisable so that a stored trace of it can be attributed.
@@ -327,6 +328,14 @@ func (w *world) malform(kind string, req *pdpb.BootstrapRequest) {
 		req.Header.ClusterId = w.id + 1
 	case "nil-header":
 		req.Header = nil
+	case "header-minus-one":
+		req.Header.ClusterId = w.id - 1
+	case "header-high-bits-only":
+		req.Header.ClusterId = w.id &^ 0xffffffff
+	case "header-low-bits-only":
+		req.Header.ClusterId = w.id & 0xffffffff
+	case "header-zero":
+		req.Header.ClusterId = 0
 	}
 }
 
@@ -927,11 +936,12 @@ type roundPlan struct {
 	FaultRestart bool   `json:"restart_after_lost_ack,omitempty"`
 	Populate     bool   `json:"populated_key_space,omitempty"`
 	Side         bool   `json:"side_traffic_in_race,omitempty"`
+	RestartEarly bool   `json:"restart_right_after_bootstrap,omitempty"`
 }
 
 func (p roundPlan) key() string {
 	return fmt.Sprintf("m%d|k%d|%s|%s|mal%d|pre%v|post%v|rst%v|%s%d|sf%d|kvx%v|fr%v|pop%v|side%v", p.Members, p.K, p.Via, p.IDs, p.Malformed, p.PreResign, p.PostResign, p.Restart,
-		p.TxnFault, p.TxnN, p.StoreFault, p.KvxStorage, p.FaultRestart, p.Populate, p.Side)
+		p.TxnFault, p.TxnN, p.StoreFault, p.KvxStorage, p.FaultRestart, p.Populate, p.Side) + fmt.Sprintf("|re%v", p.RestartEarly)
 }
 
 func via(plan string, j int, rng *rand.Rand) string {
@@ -1014,7 +1024,7 @@ func bootstrapRound(r *ev.Run, round int, p roundPlan, rng *rand.Rand) {
 		req       *pdpb.BootstrapRequest
 	}
 	var jobs []job
-	var dup *pdpb.BootstrapRequest
+	var dup, ofBase *pdpb.BootstrapRequest
 	{
 		st, rg := w.payload()
 		w.shared = [3]uint64{st.Id, rg.Id, rg.Peers[0].Id}
@@ -1031,6 +1041,19 @@ func bootstrapRound(r *ev.Run, round int, p roundPlan, rng *rand.Rand) {
 			st, rg := w.variantOf(w.shared[0], w.shared[1], w.shared[2], p.IDs == "mixed")
 			req = &pdpb.BootstrapRequest{Header: &pdpb.RequestHeader{ClusterId: w.id}, Store: st, Region: rg}
 			r.Count("bootstrap_requests_same_ids_different_content", 1)
+		case p.IDs == "onefield":
+			// every contender differs from one base payload in exactly one field
+			if ofBase == nil {
+				ofBase = w.request("valid")
+			}
+			f := raceFields[(j+int(w.base))%len(raceFields)]
+			if j == 0 {
+				req = cloneReq(ofBase)
+			} else {
+				st, rg := oneField(ofBase.Store, ofBase.Region, f, uint64(j))
+				req = &pdpb.BootstrapRequest{Header: &pdpb.RequestHeader{ClusterId: w.id}, Store: st, Region: rg}
+				r.Count("one_field_variants_in_race:"+f, 1)
+			}
 		case p.IDs == "duplicate":
 			// byte-identical copies of one request (a true retry)
 			if dup == nil {
@@ -1098,21 +1121,52 @@ func bootstrapRound(r *ev.Run, round int, p roundPlan, rng *rand.Rand) {
 			}
 			// the ids the committed transaction carried, read from etcd
 			var sid, rid, pid uint64
+			var cst *metapb.Store
+			var crg *metapb.Region
 			if t, err := w.readTruth(); err == nil {
 				for _, v := range t.Stores {
 					st := &metapb.Store{}
 					if st.Unmarshal([]byte(v)) == nil {
-						sid = st.Id
+						sid, cst = st.Id, st
 					}
 				}
 				for _, v := range t.Regions {
 					rg := &metapb.Region{}
 					if rg.Unmarshal([]byte(v)) == nil && len(rg.Peers) > 0 {
-						rid, pid = rg.Id, rg.Peers[0].Id
+						rid, pid, crg = rg.Id, rg.Peers[0].Id, rg
 					}
 				}
 			}
 			n := 0
+			// several parties at once inside the window (released together), then one at a time
+			if sid != 0 && rid != 0 && cst != nil && crg != nil {
+				var reqs []*pdpb.BootstrapRequest
+				for q, f := range []string{"epoch-version", "address", "peer-id", "region-id"} {
+					st, rg := oneField(cst, crg, f, uint64(q))
+					reqs = append(reqs, &pdpb.BootstrapRequest{Header: &pdpb.RequestHeader{ClusterId: w.id}, Store: st, Region: rg})
+				}
+				reqs = append(reqs, w.request("valid"), w.request("valid"))
+				go3 := make(chan struct{})
+				var wg3 sync.WaitGroup
+				for q, rq := range reqs {
+					wg3.Add(1)
+					go func(q int, rq *pdpb.BootstrapRequest) {
+						defer wg3.Done()
+						<-go3
+						w.send("inside-winner-window-concurrent", "valid", []string{"direct", "grpc"}[q%2], l, rq)
+					}(q, rq)
+				}
+				wg3.Add(1)
+				go func() { // a reader among them
+					defer wg3.Done()
+					<-go3
+					w.isBootstrapped("grpc", l)
+				}()
+				close(go3)
+				wg3.Wait()
+				n += len(reqs)
+				r.Count("winner_windows_with_concurrent_parties", 1)
+			}
 			for _, v := range []string{"direct", "grpc"} {
 				w.send("inside-winner-window", "valid", v, l, w.request("valid"))
 				n++
@@ -1218,6 +1272,29 @@ func bootstrapRound(r *ev.Run, round int, p roundPlan, rng *rand.Rand) {
 	}
 	r.Count("bootstrap_races", 1)
 	r.Count("bootstrap_race_requests", int64(len(jobs)))
+	if p.RestartEarly && !w.silent && p.Members == 1 && atomic.LoadInt32(&w.faults) == 0 && w.winner != nil {
+		// pd-server style shutdown right after the acknowledged bootstrap: the server context is
+		// cancelled, then Close; restart on the same data dir. What the acknowledged request stored
+		// (incl. its first region in the region storage) must be what the restarted server serves.
+		if l = w.waitRunning(); l < 0 {
+			r.Inconclusive("round %d: bootstrapped cluster does not come up", round)
+			return
+		}
+		w.judgeServed("after-race", l)
+		if !w.restart(0, "immediately after the acknowledged bootstrap") {
+			return
+		}
+		l = w.waitRunning()
+		if l < 0 {
+			r.Inconclusive("round %d: no serving leader after the immediate restart", round)
+			return
+		}
+		w.quiet = "after-immediate-restart"
+		r.Count("immediate_restarts_after_acknowledged_bootstrap", 1)
+		if !w.judgeBootstrap("after-immediate-restart") {
+			return
+		}
+	}
 	if w.silent {
 		// The cluster is bootstrapped in etcd but no request was told so. Clients keep asking:
 		// a different payload must never be answered with success; then a leader change or a
@@ -1267,6 +1344,21 @@ func bootstrapRound(r *ev.Run, round int, p roundPlan, rng *rand.Rand) {
 	w.send("repeat", "two-peers", "grpc", l, w.request("two-peers"))
 	w.send("repeat-same-ids", "valid", "direct", l, w.sameIDsRequest())
 	w.send("repeat-same-ids", "valid", "grpc", l, w.sameIDsRequest())
+	if w.winner != nil {
+		// the winner's payload with exactly one field changed, for every field: all refused
+		for q, f := range repeatFields {
+			st, rg := oneField(w.winner.Store, w.winner.Region, f.name, uint64(q+1))
+			if proto.Equal(st, w.winner.Store) && proto.Equal(rg, w.winner.Region) {
+				continue // the field already had that value
+			}
+			kind := "valid"
+			if !f.well {
+				kind = "onefield-" + f.name
+			}
+			w.send("repeat-one-field:"+f.name, kind, []string{"direct", "grpc"}[q%2], l, &pdpb.BootstrapRequest{Header: &pdpb.RequestHeader{ClusterId: w.id}, Store: st, Region: rg})
+			r.Count("one_field_variants_after_bootstrap", 1)
+		}
+	}
 	// (6) leader resigns and campaigns again; bootstrap requests keep arriving meanwhile
 	if p.PostResign {
 		stop := make(chan struct{})
